@@ -51,6 +51,7 @@ MANIFEST = {
                  'correspondence evaluation of a hand model + round-trip search oracle on the real code',
 }
 
+RULE_TAGS = ('enum', 'shape', 'kw0', 'optsdef')
 ERR = {'unbalanced': 'EUnbalanced', 'unknown_cpt': 'EUnknownCpt', 'too_many': 'ETooMany', 'missing_node': 'EMissingNode',
        'missing_arg': 'EMissingArg', 'after_named': 'EAfterNamed', 'unknown_param': 'EUnknownParam', 'assigned': 'EAssigned',
        'index': 'EIndex', 'opts_braces': 'EOptsBraces', 'include': 'EInclude'}
@@ -223,7 +224,11 @@ def gen_enum(rules, rng, tier):
                 line = build_line(rule, rng, nshapes[rot % len(nshapes)], NODE_SHAPES[(rot // 2) % len(NODE_SHAPES)], shapes, j, sub,
                                   kwcase=rot // 3, sep=SEPS[rot % len(SEPS)], opts=OPTS[(rot // 2) % len(OPTS)],
                                   paren_nodes=(rot % 11 == 0), optsep=[';', '; ', ' ; '][rot % 3])
-                cases.append({'lines': [line], 'tag': 'enum', 'rule': cls, 'variant': [j, sub]})
+                # a named argument addresses the FIRST parameter of that name: with repeated names (RV) such a line is
+                # not a valid instance of the rule, so the grammar-level oracle does not apply to it
+                anames = [p[0].lower() for p in ps if p[1] in ('name', 'value')]
+                spec = all(anames.count(optl[k][0].lower()) == 1 for k in sub)
+                cases.append({'lines': [line], 'tag': 'enum', 'rule': cls, 'variant': [j, sub], 'spec': spec})
         # all positional: name shape x value shape
         for ns in nshapes:
             for sh in SHAPES:
@@ -236,6 +241,14 @@ def gen_enum(rules, rng, tier):
             nopt1 = 1 if (optl and [p for p in ps if p[1] in ('name', 'value')][0][2]) else 0
             line = build_line(rule, rng, 'plain', 'num', ['num'], nopt1, [], first_val=ty + '1')
             cases.append({'lines': [line], 'tag': 'ownname', 'rule': cls, 'variant': ['ownname']})
+        # keyword directly after the name (U*, S*, SP*): always with options, in every spelling of the keyword
+        if pos == 0:
+            for kc in range(3):
+                for ob in ('right', 'l={a, b}, size=2', ''):
+                    rot += 1
+                    line = build_line(rule, rng, ['plain', 'under', 'ns'][kc], ['pin', 'num', 'under'][rot % 3], ['num'], nopt, [],
+                                      kwcase=kc, opts=ob, optsep=[';', '; ', ' ; '][rot % 3])
+                    cases.append({'lines': [line], 'tag': 'kw0', 'rule': cls, 'variant': ['kw0', kc, ob]})
         # the `def` drawing attribute (a list-valued option)
         if ty in ('R', 'W', 'U'):
             line = build_line(rule, rng, 'plain', 'num', ['num'], nopt, [], opts=OPTS_DEF)
@@ -270,11 +283,14 @@ DIRECTIVES = ['# a comment', '% another', '* spice comment', '; right=2', ';; dr
 
 
 def gen_netlists(rules, rng, n):
-    """multi-line netlists: anonymous names, overriding, directives, `?` names"""
+    """multi-line netlists: anonymous names, directives, `?` names.  Component names are unique inside one netlist:
+    replacing a same-named component goes through Netlist._cpt_add / Node.remove (node bookkeeping, property C16), which is
+    neither the reader nor the writer and can raise on its own (e.g. when only an annotation is left on a node)"""
     simple = [r for r in rules if r[1] in ('R', 'C', 'L', 'V', 'I', 'W', 'O', 'P', 'A', 'E', 'G', 'TF', 'K', 'SW', 'U', 'D', 'Q', 'M')]
     cases = []
     for _ in range(n):
         lines = []
+        uniq = 0
         for _ in range(rng.randint(2, 7)):
             t = rng.random()
             if t < 0.2:
@@ -287,12 +303,16 @@ def gen_netlists(rules, rng, n):
             j = rng.randint(0, len(optl))
             line = build_line(rule, rng, ns, rng.choice(['num', 'num', 'under']), [rng.choice(SHAPES) for _ in range(3)], j, [],
                               opts=rng.choice(OPTS[:4]))
+            if ns in ('plain', 'under'):
+                uniq += 1
+                old = mk_name(ty, ns)
+                line = ty + ('x_' if ns == 'under' else '') + str(uniq) + line[len(old):]
             if rng.random() < 0.15:
                 line = rng.choice(['...', '... ', '  ']) + line
             lines.append(line)
         if rng.random() < 0.3:
-            # explicit use of a generated name, to exercise the namer's search
-            lines.insert(rng.randrange(len(lines) + 1), rng.choice(['Wanon1 7 8', 'Ranon1 7 8', 'Wanon2 8 9', 'XXanon1 1 2', 'Panon1 1 2']))
+            # explicit use of a generated name, to exercise the namer's search; first, so that it never replaces a component
+            lines.insert(0, rng.choice(['Wanon1 7 8', 'Ranon1 7 8', 'Wanon2 8 9', 'XXanon1 1 2', 'Panon1 1 2', 'Ranon2 7 8', 'Oanon1 7 8']))
         cases.append({'lines': lines, 'tag': 'netlist'})
     return cases
 
@@ -335,7 +355,7 @@ def gen_malformed(rules, rng, n):
     for rule in rules:
         optl = [p for p in rule[2] if p[1] in ('name', 'value') and p[2]]
         base.append((rule, build_line(rule, rng, 'plain', 'num', ['num', 'sym'], len(optl), [])))
-    fixed = ['R1 1', 'R1', 'R1 1 2 3 4', 'R1 1 2 3 4 5', 'x1 1 2', '1R 1 2', 'q1 1 2', 'R1 1 2 Foo=3', 'C1 1 2 Value=3 4',
+    fixed = [',.R1 1 2', '(.C1 1 2 3', 'R1 1', 'R1', 'R1 1 2 3 4', 'R1 1 2 3 4 5', 'x1 1 2', '1R 1 2', 'q1 1 2', 'R1 1 2 Foo=3', 'C1 1 2 Value=3 4',
              'C1 1 2 Value=3 value=4', 'C1 1 2 IC=3 ic=4', 'R1 1 2 {3', 'R1 1 2 3}', 'R1 1 2 "3', 'R1 1 2 {3"}', 'R1 1 2 {"3}',
              'R1 1 2 {{3}', 'R1 1 2 3; l={a', 'R1 1 2 3; l=a}', '( )', ',', 'R1 1 2 {a;b}', 'V1 1 0 ac 1 2 3 4', 'V1 1 ac',
              'E1 1 2 opamp 3', 'TPA1 1 2 3 4 A 1 2 3', 'TPA1 1 2 3 4 A 1 2 3 4 5 6 7', 'K1 L1', 'SPpp1 pp .a .b',
@@ -532,6 +552,11 @@ def fingerprint(c, r, rules):
     for x in rules:
         bytype.setdefault(x[1], []).append(x)
     c0 = live(r.get('c0', []))
+    c1 = live(r.get('c1', []))
+    for e, e1 in zip(c0, c1):
+        # ".C" (empty namespace): the reader keeps the dot, the writer drops it
+        if e[1].startswith('.') and '.' not in e[1][1:] and e1[1] == e[1][1:]:
+            return 'Cpt._netmake1:leading-dot-name-loses-dot'
     for e in c0:
         if any(k == 'def' for k, _ in e[5]):
             return 'Opts.format:def-list-printed-as-python-repr'
@@ -547,8 +572,16 @@ def fingerprint(c, r, rules):
             kws = [s[2][s[3]][0].lower() for s in bytype[ty] if s[3] == argps[0][0]]
             if e[3][0] is not None and e[3][0].lower() in kws:
                 return 'Cpt._netmake1:value-equals-sibling-keyword'
-        if pos is not None and e[4][1] == '' and any(p[1] in ('node', 'pin') for p in ps):
-            return 'Cpt._netmake1:missing-keyword-of-first-rule'
+        if pos is not None and e[4][1] == '':
+            # the first rule of the type was taken by default.  Was a VALID keyword of the type written in the input?
+            toks = [t for t in re.split(r'[ \t(),]+', e[6].split(';', 1)[0].strip()) if t != '']
+            fields = toks[1:]
+            valid = [s2 for s2 in bytype[ty] if s2[3] is not None and len(fields) > s2[3]
+                     and fields[s2[3]].lower() == s2[2][s2[3]][0].lower()]
+            if valid:
+                return 'Parser.parse:valid-keyword-at-position-%d-not-recognised:%s' % (valid[0][3], ty)
+            if any(p[1] in ('node', 'pin') for p in ps):
+                return 'Cpt._netmake1:missing-keyword-of-first-rule'
         if argps and e[3] and e[3][0] == rel and argps[0][1][3] != 'name':
             fm = [a for i, a in enumerate(e[3]) if not (a is None and i == len(e[3]) - 1)]
             if len(fm) == 1:
@@ -675,7 +708,7 @@ def run(tier='quick', replay=None):
                 break
             if not comparable(c, r):
                 res.count('outside_model_' + tag)
-                if tag in ('enum', 'shape', 'netlist'):
+                if tag in ('enum', 'shape', 'netlist', 'kw0'):
                     # the enumeration is built from values every constructor accepts
                     res.disagreements.append({'case': c, 'lcapy': r, 'why': 'the real code raised outside the parser on an enumerated line'})
                 continue
@@ -730,7 +763,7 @@ def run(tier='quick', replay=None):
         phase['coq_cases'] = round(time.time() - tph, 1); tph = time.time()
         # 4. round-trip oracle (real code only)
         oidx = [i for i, c in enumerate(cases) if 'lines' in c]
-        ocases = [{'roundtrip': cases[i]['lines'], 'tag': cases[i].get('tag'), 'rule': cases[i].get('rule')} for i in oidx]
+        ocases = [{'roundtrip': cases[i]['lines'], 'tag': cases[i].get('tag'), 'rule': cases[i].get('rule'), 'spec': cases[i].get('spec', True)} for i in oidx]
         oresults = core.run_impl('impl_parser.py', ocases) if ocases else []
         inside = set(dom_idx) - outside if gen_ok else set()
         for ci, c, r in zip(oidx, ocases, oresults):
@@ -739,6 +772,22 @@ def run(tier='quick', replay=None):
                 res.obligations += 1
                 break
             v = oracle_verdict(r)
+            built_from = c.get('rule') if (c.get('tag') in RULE_TAGS and c.get('spec', True)) else None
+            if built_from is not None:
+                # specification = the grammar line itself ("Class: Typename ... keyword ...; comment"): text built from that
+                # line with well-formed fields must be accepted and must become an instance of that class
+                ty = {x[0]: x[1] for x in rules}.get(built_from, '?')
+                if 'error0' in r:
+                    res.count('oracle_fail')
+                    res.counterexamples.append({'case': c, 'lcapy': r, 'why': 'a line written after grammar rule %s is rejected: %s' % (built_from, r['error0'].get('msg', '')[:80]),
+                                                'key': 'Parser.parse:valid-line-rejected:%s' % ty})
+                    continue
+                got = live(r['c0'])[0][0] if live(r['c0']) else None
+                if got != built_from:
+                    res.count('oracle_fail')
+                    res.counterexamples.append({'case': c, 'lcapy': r, 'why': 'a line written after grammar rule %s is read as class %s' % (built_from, got),
+                                                'key': 'Parser.parse:wrong-class:%s' % ty})
+                    continue
             if 'error0' in r:
                 res.count('oracle_not_accepted')
             elif v is None:
@@ -780,13 +829,17 @@ def run(tier='quick', replay=None):
         # 5. decide
         seen = {}
         for ce in res.counterexamples:
-            seen.setdefault(ce['key'], ce)
+            # keep the shortest failing input of each mechanism
+            old = seen.get(ce['key'])
+            size = lambda x: len('\n'.join(x['case'].get('roundtrip') or [x['case'].get('vp', '')]))
+            if old is None or size(ce) < size(old):
+                seen[ce['key']] = ce
         known_keys = set(k['key'] for k in core.load_known() if k.get('property') == PID and k.get('status') == 'open')
         fresh = [k for k in seen if k not in known_keys]
         for k, ce in seen.items():
             if k in fresh[6:]:
                 continue     # one report per mechanism is enough; the count is in the evidence
-            violations.append({'key': k, 'what': 'round trip fails on the real code: %s' % ce['why'], 'case': ce['case'],
+            violations.append({'key': k, 'what': 'real code: %s' % ce['why'], 'case': ce['case'],
                                'lcapy': ce['lcapy'], 'found_input': True, 'how': './check C06 --replay <this file>'})
         for name, f, msg in res.failed_obl:
             if name == 'suffix_Meg_G' and 'value_parser:Meg' in seen:
